@@ -263,6 +263,26 @@ func cmdCheck(args []string) int {
 	}
 	wg.Wait()
 
+	// second pass: obligations that ran out of time while 16 workers were
+	// competing for the cores are retried one at a time with a long limit, so
+	// that machine load never turns into an alarm. Skipped when many
+	// obligations are undecided (that is not a scheduling accident).
+	var retry []*oblResult
+	for _, w := range work {
+		if !w.O.Cover && (w.R.Answer == "timeout" || w.R.Answer == "unknown" || w.R.Answer == "error") {
+			retry = append(retry, w)
+		}
+	}
+	if len(retry) > 0 && len(retry) <= 6 {
+		for _, w := range retry {
+			r := SolveHint(w.Ctx.Query(w.O, false), 150*time.Second, scratch, false, hints[w.Full])
+			if r.Answer == "unsat" || r.Answer == "sat" {
+				r.Seconds += w.R.Seconds
+				w.R = r
+			}
+		}
+	}
+
 	if *writeHints {
 		hf := filepath.Join(verifDir, "baseline", "hints.json")
 		all := map[string]string{}
